@@ -692,6 +692,9 @@ noncomputable def t_cr (t_cnot : ℝ) : ℝ :=
 noncomputable def p_cr (p_cnot : ℝ) (p_single_ctr : ℝ) (p_single_trg : ℝ) : ℝ :=
   (((4 : ℝ) / 3) * ((1 : ℝ) - (Real.sqrt (Real.sqrt ((((1 : ℝ) - (((3 : ℝ) / 4) * p_cnot)) ^ 2) / ((((1 : ℝ) - (((3 : ℝ) / 4) * p_single_ctr)) ^ 2) * ((1 : ℝ) - (((3 : ℝ) / 4) * p_single_trg))))))))
 
+noncomputable def p_cr_1 (p_cnot : ℝ) (p_single_ctr : ℝ) (p_single_trg : ℝ) : ℝ :=
+  (if (QG.Gen.CNOT.p_cr p_cnot p_single_ctr p_single_trg) < (0 : ℝ) then (0 : ℝ) else (QG.Gen.CNOT.p_cr p_cnot p_single_ctr p_single_trg))
+
 /-- the samples of the constituent pulses, one record per constituent call (in call order) -/
 structure Samples where
   first_cr : CR.Samples
@@ -703,9 +706,9 @@ structure Samples where
 
 /-- `CNOTFactory.construct`: the product is read off the source; every constituent call with its argument expressions -/
 noncomputable def construct (F : ℝ → ℝ) (phi_ctr : ℝ) (phi_trg : ℝ) (t_cnot : ℝ) (p_cnot : ℝ) (p_single_ctr : ℝ) (p_single_trg : ℝ) (T1_ctr : ℝ) (T2_ctr : ℝ) (T1_trg : ℝ) (T2_trg : ℝ) (w : Samples) : Matrix (Fin 4) (Fin 4) ℂ :=
-  ((((CR.construct F ((-Real.pi) / (4 : ℝ)) (-phi_trg) (QG.Gen.CNOT.t_cr t_cnot) (QG.Gen.CNOT.p_cr p_cnot p_single_ctr p_single_trg) T1_ctr T2_ctr T1_trg T2_trg w.first_cr) * (QG.Spec.kron2 (X.construct F ((-phi_ctr) + (Real.pi / (2 : ℝ))) p_single_ctr T1_ctr T2_ctr w.x_gate) (Relaxation.construct QG.Gen.CNOT.tg T1_trg T2_trg w.relaxation_gate))) * (CR.construct F (Real.pi / (4 : ℝ)) (-phi_trg) (QG.Gen.CNOT.t_cr t_cnot) (QG.Gen.CNOT.p_cr p_cnot p_single_ctr p_single_trg) T1_ctr T2_ctr T1_trg T2_trg w.second_cr)) * (QG.Spec.kron2 (SingleQubit.construct F (-Real.pi) (((-phi_ctr) + (Real.pi / (2 : ℝ))) + (Real.pi / (2 : ℝ))) p_single_ctr T1_ctr T2_ctr w.Y_Rz) (SX.construct F (-phi_trg) p_single_trg T1_trg T2_trg w.sx_gate)))
+  ((((CR.construct F ((-Real.pi) / (4 : ℝ)) (-phi_trg) (QG.Gen.CNOT.t_cr t_cnot) (QG.Gen.CNOT.p_cr_1 p_cnot p_single_ctr p_single_trg) T1_ctr T2_ctr T1_trg T2_trg w.first_cr) * (QG.Spec.kron2 (X.construct F ((-phi_ctr) + (Real.pi / (2 : ℝ))) p_single_ctr T1_ctr T2_ctr w.x_gate) (Relaxation.construct QG.Gen.CNOT.tg T1_trg T2_trg w.relaxation_gate))) * (CR.construct F (Real.pi / (4 : ℝ)) (-phi_trg) (QG.Gen.CNOT.t_cr t_cnot) (QG.Gen.CNOT.p_cr_1 p_cnot p_single_ctr p_single_trg) T1_ctr T2_ctr T1_trg T2_trg w.second_cr)) * (QG.Spec.kron2 (SingleQubit.construct F (-Real.pi) (((-phi_ctr) + (Real.pi / (2 : ℝ))) + (Real.pi / (2 : ℝ))) p_single_ctr T1_ctr T2_ctr w.Y_Rz) (SX.construct F (-phi_trg) p_single_trg T1_trg T2_trg w.sx_gate)))
 
-attribute [qg_unfold] tg t_cr p_cr construct
+attribute [qg_unfold] tg t_cr p_cr p_cr_1 construct
 
 end CNOT
 
@@ -720,6 +723,9 @@ noncomputable def t_cr (t_cnot : ℝ) : ℝ :=
 noncomputable def p_cr (p_cnot : ℝ) (p_single_ctr : ℝ) (p_single_trg : ℝ) : ℝ :=
   (((4 : ℝ) / 3) * ((1 : ℝ) - (Real.sqrt (Real.sqrt ((((1 : ℝ) - (((3 : ℝ) / 4) * p_cnot)) ^ 2) / ((((1 : ℝ) - (((3 : ℝ) / 4) * p_single_ctr)) ^ 2) * (((1 : ℝ) - (((3 : ℝ) / 4) * p_single_trg)) ^ 3)))))))
 
+noncomputable def p_cr_1 (p_cnot : ℝ) (p_single_ctr : ℝ) (p_single_trg : ℝ) : ℝ :=
+  (if (QG.Gen.CNOTInv.p_cr p_cnot p_single_ctr p_single_trg) < (0 : ℝ) then (0 : ℝ) else (QG.Gen.CNOTInv.p_cr p_cnot p_single_ctr p_single_trg))
+
 /-- the samples of the constituent pulses, one record per constituent call (in call order) -/
 structure Samples where
   Ry : SingleQubit.Samples
@@ -733,9 +739,9 @@ structure Samples where
 
 /-- `CNOTInvFactory.construct`: the product is read off the source; every constituent call with its argument expressions -/
 noncomputable def construct (F : ℝ → ℝ) (phi_ctr : ℝ) (phi_trg : ℝ) (t_cnot : ℝ) (p_cnot : ℝ) (p_single_ctr : ℝ) (p_single_trg : ℝ) (T1_ctr : ℝ) (T2_ctr : ℝ) (T1_trg : ℝ) (T2_trg : ℝ) (w : Samples) : Matrix (Fin 4) (Fin 4) ℂ :=
-  (((((QG.Spec.kron2 (SingleQubit.construct F ((-Real.pi) / (2 : ℝ)) (((-phi_trg) - (Real.pi / (2 : ℝ))) + (Real.pi / (2 : ℝ))) p_single_trg T1_trg T2_trg w.Ry) (SX.construct F (((-phi_ctr) - Real.pi) - (Real.pi / (2 : ℝ))) p_single_ctr T1_ctr T2_ctr w.first_sx_gate)) * (CR.construct F ((-Real.pi) / (4 : ℝ)) ((-phi_ctr) - Real.pi) (QG.Gen.CNOTInv.t_cr t_cnot) (QG.Gen.CNOTInv.p_cr p_cnot p_single_ctr p_single_trg) T1_trg T2_trg T1_ctr T2_ctr w.first_cr)) * (QG.Spec.kron2 (X.construct F ((-phi_trg) - (Real.pi / (2 : ℝ))) p_single_trg T1_trg T2_trg w.x_gate) (Relaxation.construct QG.Gen.CNOTInv.tg T1_ctr T2_ctr w.relaxation_gate))) * (CR.construct F (Real.pi / (4 : ℝ)) ((-phi_ctr) - Real.pi) (QG.Gen.CNOTInv.t_cr t_cnot) (QG.Gen.CNOTInv.p_cr p_cnot p_single_ctr p_single_trg) T1_trg T2_trg T1_ctr T2_ctr w.second_cr)) * (QG.Spec.kron2 (SX.construct F ((-phi_trg) - (Real.pi / (2 : ℝ))) p_single_trg T1_trg T2_trg w.second_sx_gate) (SingleQubit.construct F (Real.pi / (2 : ℝ)) (((-phi_ctr) - Real.pi) + (Real.pi / (2 : ℝ))) p_single_ctr T1_ctr T2_ctr w.Y_Z)))
+  (((((QG.Spec.kron2 (SingleQubit.construct F ((-Real.pi) / (2 : ℝ)) (((-phi_trg) - (Real.pi / (2 : ℝ))) + (Real.pi / (2 : ℝ))) p_single_trg T1_trg T2_trg w.Ry) (SX.construct F (((-phi_ctr) - Real.pi) - (Real.pi / (2 : ℝ))) p_single_ctr T1_ctr T2_ctr w.first_sx_gate)) * (CR.construct F ((-Real.pi) / (4 : ℝ)) ((-phi_ctr) - Real.pi) (QG.Gen.CNOTInv.t_cr t_cnot) (QG.Gen.CNOTInv.p_cr_1 p_cnot p_single_ctr p_single_trg) T1_trg T2_trg T1_ctr T2_ctr w.first_cr)) * (QG.Spec.kron2 (X.construct F ((-phi_trg) - (Real.pi / (2 : ℝ))) p_single_trg T1_trg T2_trg w.x_gate) (Relaxation.construct QG.Gen.CNOTInv.tg T1_ctr T2_ctr w.relaxation_gate))) * (CR.construct F (Real.pi / (4 : ℝ)) ((-phi_ctr) - Real.pi) (QG.Gen.CNOTInv.t_cr t_cnot) (QG.Gen.CNOTInv.p_cr_1 p_cnot p_single_ctr p_single_trg) T1_trg T2_trg T1_ctr T2_ctr w.second_cr)) * (QG.Spec.kron2 (SX.construct F ((-phi_trg) - (Real.pi / (2 : ℝ))) p_single_trg T1_trg T2_trg w.second_sx_gate) (SingleQubit.construct F (Real.pi / (2 : ℝ)) (((-phi_ctr) - Real.pi) + (Real.pi / (2 : ℝ))) p_single_ctr T1_ctr T2_ctr w.Y_Z)))
 
-attribute [qg_unfold] tg t_cr p_cr construct
+attribute [qg_unfold] tg t_cr p_cr p_cr_1 construct
 
 end CNOTInv
 
@@ -750,6 +756,9 @@ noncomputable def t_cr (t_ecr : ℝ) : ℝ :=
 noncomputable def p_cr (p_ecr : ℝ) (p_single_ctr : ℝ) (p_single_trg : ℝ) : ℝ :=
   (((4 : ℝ) / 3) * ((1 : ℝ) - (Real.sqrt (Real.sqrt ((((1 : ℝ) - (((3 : ℝ) / 4) * p_ecr)) ^ 2) / ((((1 : ℝ) - (((3 : ℝ) / 4) * p_single_ctr)) ^ 2) * ((1 : ℝ) - (((3 : ℝ) / 4) * p_single_trg))))))))
 
+noncomputable def p_cr_1 (p_ecr : ℝ) (p_single_ctr : ℝ) (p_single_trg : ℝ) : ℝ :=
+  (if (QG.Gen.ECR.p_cr p_ecr p_single_ctr p_single_trg) < (0 : ℝ) then (0 : ℝ) else (QG.Gen.ECR.p_cr p_ecr p_single_ctr p_single_trg))
+
 /-- the samples of the constituent pulses, one record per constituent call (in call order) -/
 structure Samples where
   first_cr : CR.Samples
@@ -759,9 +768,9 @@ structure Samples where
 
 /-- `ECRFactory.construct`: the product is read off the source; every constituent call with its argument expressions -/
 noncomputable def construct (F : ℝ → ℝ) (phi_ctr : ℝ) (phi_trg : ℝ) (t_ecr : ℝ) (p_ecr : ℝ) (p_single_ctr : ℝ) (p_single_trg : ℝ) (T1_ctr : ℝ) (T2_ctr : ℝ) (T1_trg : ℝ) (T2_trg : ℝ) (w : Samples) : Matrix (Fin 4) (Fin 4) ℂ :=
-  (((CR.construct F (Real.pi / (4 : ℝ)) (Real.pi - phi_trg) (QG.Gen.ECR.t_cr t_ecr) (QG.Gen.ECR.p_cr p_ecr p_single_ctr p_single_trg) T1_ctr T2_ctr T1_trg T2_trg w.first_cr) * (QG.Spec.kron2 ((-Complex.I) • (X.construct F (Real.pi - phi_ctr) p_single_ctr T1_ctr T2_ctr w.x_gate)) (Relaxation.construct QG.Gen.ECR.tg T1_trg T2_trg w.relaxation_gate))) * (CR.construct F ((-Real.pi) / (4 : ℝ)) (Real.pi - phi_trg) (QG.Gen.ECR.t_cr t_ecr) (QG.Gen.ECR.p_cr p_ecr p_single_ctr p_single_trg) T1_ctr T2_ctr T1_trg T2_trg w.second_cr))
+  (((CR.construct F (Real.pi / (4 : ℝ)) (Real.pi - phi_trg) (QG.Gen.ECR.t_cr t_ecr) (QG.Gen.ECR.p_cr_1 p_ecr p_single_ctr p_single_trg) T1_ctr T2_ctr T1_trg T2_trg w.first_cr) * (QG.Spec.kron2 ((-Complex.I) • (X.construct F (Real.pi - phi_ctr) p_single_ctr T1_ctr T2_ctr w.x_gate)) (Relaxation.construct QG.Gen.ECR.tg T1_trg T2_trg w.relaxation_gate))) * (CR.construct F ((-Real.pi) / (4 : ℝ)) (Real.pi - phi_trg) (QG.Gen.ECR.t_cr t_ecr) (QG.Gen.ECR.p_cr_1 p_ecr p_single_ctr p_single_trg) T1_ctr T2_ctr T1_trg T2_trg w.second_cr))
 
-attribute [qg_unfold] tg t_cr p_cr construct
+attribute [qg_unfold] tg t_cr p_cr p_cr_1 construct
 
 end ECR
 
@@ -776,6 +785,9 @@ noncomputable def t_cr (t_ecr : ℝ) : ℝ :=
 noncomputable def p_cr (p_ecr : ℝ) (p_single_ctr : ℝ) (p_single_trg : ℝ) : ℝ :=
   (((4 : ℝ) / 3) * ((1 : ℝ) - (Real.sqrt (Real.sqrt ((((1 : ℝ) - (((3 : ℝ) / 4) * p_ecr)) ^ 2) / ((((1 : ℝ) - (((3 : ℝ) / 4) * p_single_ctr)) ^ 2) * ((1 : ℝ) - (((3 : ℝ) / 4) * p_single_trg))))))))
 
+noncomputable def p_cr_1 (p_ecr : ℝ) (p_single_ctr : ℝ) (p_single_trg : ℝ) : ℝ :=
+  (if (QG.Gen.ECRInv.p_cr p_ecr p_single_ctr p_single_trg) < (0 : ℝ) then (0 : ℝ) else (QG.Gen.ECRInv.p_cr p_ecr p_single_ctr p_single_trg))
+
 /-- the samples of the constituent pulses, one record per constituent call (in call order) -/
 structure Samples where
   first_cr : CR.Samples
@@ -789,9 +801,9 @@ structure Samples where
 
 /-- `ECRInvFactory.construct`: the product is read off the source; every constituent call with its argument expressions -/
 noncomputable def construct (F : ℝ → ℝ) (phi_ctr : ℝ) (phi_trg : ℝ) (t_ecr : ℝ) (p_ecr : ℝ) (p_single_ctr : ℝ) (p_single_trg : ℝ) (T1_ctr : ℝ) (T2_ctr : ℝ) (T1_trg : ℝ) (T2_trg : ℝ) (w : Samples) : Matrix (Fin 4) (Fin 4) ℂ :=
-  (((Complex.I • (QG.Spec.kron2 (SX.construct F (((-Real.pi) / (2 : ℝ)) - phi_ctr) p_single_ctr T1_ctr T2_ctr w.sx_gate_ctr_1) (SX.construct F (((-Real.pi) / (2 : ℝ)) - phi_trg) p_single_trg T1_trg T2_trg w.sx_gate_trg_1))) * (((CR.construct F (Real.pi / (4 : ℝ)) (Real.pi - phi_trg) (QG.Gen.ECRInv.t_cr t_ecr) (QG.Gen.ECRInv.p_cr p_ecr p_single_ctr p_single_trg) T1_ctr T2_ctr T1_trg T2_trg w.first_cr) * (QG.Spec.kron2 ((-Complex.I) • (X.construct F (Real.pi - phi_ctr) p_single_ctr T1_ctr T2_ctr w.x_gate)) (Relaxation.construct QG.Gen.ECRInv.tg T1_trg T2_trg w.relaxation_gate))) * (CR.construct F ((-Real.pi) / (4 : ℝ)) (Real.pi - phi_trg) (QG.Gen.ECRInv.t_cr t_ecr) (QG.Gen.ECRInv.p_cr p_ecr p_single_ctr p_single_trg) T1_ctr T2_ctr T1_trg T2_trg w.second_cr))) * (QG.Spec.kron2 (SX.construct F (((-Real.pi) / (2 : ℝ)) - phi_ctr) p_single_ctr T1_ctr T2_ctr w.sx_gate_ctr_2) (SX.construct F (((-Real.pi) / (2 : ℝ)) - phi_trg) p_single_trg T1_trg T2_trg w.sx_gate_trg_2)))
+  (((Complex.I • (QG.Spec.kron2 (SX.construct F (((-Real.pi) / (2 : ℝ)) - phi_ctr) p_single_ctr T1_ctr T2_ctr w.sx_gate_ctr_1) (SX.construct F (((-Real.pi) / (2 : ℝ)) - phi_trg) p_single_trg T1_trg T2_trg w.sx_gate_trg_1))) * (((CR.construct F (Real.pi / (4 : ℝ)) (Real.pi - phi_trg) (QG.Gen.ECRInv.t_cr t_ecr) (QG.Gen.ECRInv.p_cr_1 p_ecr p_single_ctr p_single_trg) T1_ctr T2_ctr T1_trg T2_trg w.first_cr) * (QG.Spec.kron2 ((-Complex.I) • (X.construct F (Real.pi - phi_ctr) p_single_ctr T1_ctr T2_ctr w.x_gate)) (Relaxation.construct QG.Gen.ECRInv.tg T1_trg T2_trg w.relaxation_gate))) * (CR.construct F ((-Real.pi) / (4 : ℝ)) (Real.pi - phi_trg) (QG.Gen.ECRInv.t_cr t_ecr) (QG.Gen.ECRInv.p_cr_1 p_ecr p_single_ctr p_single_trg) T1_ctr T2_ctr T1_trg T2_trg w.second_cr))) * (QG.Spec.kron2 (SX.construct F (((-Real.pi) / (2 : ℝ)) - phi_ctr) p_single_ctr T1_ctr T2_ctr w.sx_gate_ctr_2) (SX.construct F (((-Real.pi) / (2 : ℝ)) - phi_trg) p_single_trg T1_trg T2_trg w.sx_gate_trg_2)))
 
-attribute [qg_unfold] tg t_cr p_cr construct
+attribute [qg_unfold] tg t_cr p_cr p_cr_1 construct
 
 end ECRInv
 
